@@ -11,7 +11,7 @@ VECTORS = [
     {"id": "upper-nl", "calcop": "before", "ws": "\n\t", "cm": False, "case": "upper", "quote": '"', "url": "sq", "esc": "none", "imp": "! IMPORTANT", "lastsemi": True, "eof": False, "num": "plain"},
     {"id": "comments", "calcop": "after", "ws": " ", "cm": True, "case": "mixed", "quote": "'", "url": "pad", "esc": "simple", "imp": "!/**/important", "lastsemi": False, "eof": False, "num": "trail0"},
     {"id": "crlf-hex", "calcop": "before", "ws": "\r\n\f ", "cm": False, "case": "lower", "quote": '"', "url": "padcrff", "esc": "hex", "imp": "!important", "lastsemi": False, "eof": True, "num": "plain"},
-    {"id": "tab-upper-cm", "calcop": "after", "ws": "\t", "cm": True, "case": "upper", "quote": '"', "url": "dq", "esc": "hex6", "imp": "!IMPORTANT", "lastsemi": True, "eof": True, "num": "plain"},
+    {"id": "tab-upper-cm", "calcop": "after", "ws": "\t", "cm": True, "case": "upper", "quote": '"', "url": "dq", "esc": "hex6", "imp": "!IMPORTANT", "lastsemi": True, "eof": True, "num": "plain", "cm2": True},
 ]
 
 
@@ -102,7 +102,8 @@ def value_text(val, v):
     for c in val:
         if c["t"] == "op":
             # "a /*x*/ , b": with comment parsing off the comment must go and the white space on both its sides is one
-            out += (W(v, True) + CM(v) + W(v, True) if v["cm"] else W(v)) + c["x"] + W(v)
+            # (vector tab-upper-cm: TWO comments with white space between them - every run of white space and comments is one space)
+            out += (W(v, True) + CM(v) + W(v, True) + (CM(v) + W(v, True) if v.get("cm2") else "") if v["cm"] else W(v)) + c["x"] + W(v)
         else:
             if prev is not None and prev["t"] != "op":
                 out += W(v, True) + (CM(v) + W(v, True) if v["cm"] else "")
